@@ -44,11 +44,16 @@ POOL = [
     Sum(CSE(Sum(X, C(1))), Prod(CSE(Sum(X, C(1))), Y)),     # 8  same wrapper twice
     Call(V("f"), X, C(4)),                          # 9
     Quot(Sum(X, C(4)), Sub(V("arr"), Y)),           # 10 shares Sum(x, 4) with 4
+    # 11: wrappers with equal children but different prefix / scope side by side
+    T(CSE(Sum(X, C(1)), "p"), CSE(Sum(X, C(1))), CSE(Sum(X, C(1)), None, ("str", "pymbolic_expr"))),
+    CSE(Sum(X, C(1)), "q"),                         # 12
 ]
 SHARED = {6}        # built with DAG sharing (the two Product(x, y) are one object)
-POOL_Q = [0, 1, 2, 3, 4, 6, 7, 8]
-ARGS = [(), (1,), (1.0,), (True,), (1, "a")]
-ARGS_Q = [(), (1,), (1.0,)]
+POOL_Q = [0, 1, 2, 3, 4, 6, 7, 8, 11, 12]
+# extra arguments of a call: (positional tuple, keyword items)
+ARGS = [((), ()), ((1,), ()), ((1.0,), ()), ((True,), ()), ((1, "a"), ()),
+        ((), (("k", 1),)), ((), (("k", 2),)), ((1,), (("k", 1),))]
+ARGS_Q = [((), ()), ((1,), ()), ((1.0,), ()), ((), (("k", 1),)), ((), (("k", 2),))]
 
 
 def pool_obj(i):
@@ -116,7 +121,7 @@ def pairs():
     PRen = type("PRen", (IdentityMapper,), {"map_variable": rename})
 
     def leaf(self, expr, *a, **k):
-        return Counter({(norm_result(expr), tuple(norm_result(x) for x in a)): 1})
+        return Counter({(norm_result(expr), tuple(norm_result(x) for x in a), frozen(k)): 1})
 
     def comb(self, values):
         out = Counter()
@@ -130,7 +135,7 @@ def pairs():
                  {"combine": comb, "map_constant": leaf, "map_variable": leaf})
 
     def collect_var(self, expr, *a, **k):
-        return {(expr, a)}
+        return {(expr, a, frozen(k))}
 
     CColl = type("CColl", (CachedCollector,), {"map_variable": collect_var})
     PColl = type("PColl", (Collector,), {"map_variable": collect_var})
@@ -202,10 +207,11 @@ class C05(Check):
             "(expression, extra-argument tuple) with expressions from a pool built for sharing "
             "(equal-but-not-identical subtrees, DAG sharing, 4 / 4.0 / True as leaves, in a tuple "
             "and at top level, one CSE wrapper twice) and arguments from {(), (1,), (1.0,), "
-            "(True,), (1,'a')}; all histories up to the largest depth whose complete exploration "
+            "(True,), (1,'a'), k=1, k=2, (1, k=1)}; all histories up to the largest depth whose complete exploration "
             "fits 15k (quick) / 250k (thorough) transitions per mapper pair (depth 3-5); pairs: identity, argument-dependent renamer, leaf-counting combine, collector, "
             "walk, evaluation, substitution, dependency x 3 flag settings, and every class the "
-            "optimizer produces from 4 source classes (32 + 32 + 4 + 4 option combinations), each "
+            "optimizer produces from 5 source classes (a renamer, a flattener, a None-returning walker, "
+            "two argument-keeping mappers) (32 + 32 + 32 + 4 + 4 option combinations), each "
             "in a fresh process state and after an earlier use of the optimizer with other "
             "options. A "
             "state is a history with exact repeats removed; every transition replays its history "
@@ -230,7 +236,7 @@ class C05(Check):
                 yield ("pair", name)
 
         def optimized():
-            for kind in ("OptRenamer", "OptFlattener", "OptStock", "OptArgRenamer"):
+            for kind in ("OptRenamer", "OptFlattener", "OptWalker", "OptStock", "OptArgRenamer"):
                 for o in opt_combos(kind):
                     for poison in POISONS:
                         yield ("opt", kind, tuple(sorted(o.items())), poison)
@@ -258,13 +264,14 @@ class C05(Check):
                 return r
             label = item[1] + "[" + ("+".join(k for k, v in sorted(opts.items()) if v)
                                      or "none") + "]" + item[3]
-            pool = [0, 1, 2, 3, 4, 6, 7]
+            pool = [0, 1, 2, 3, 4, 6, 7, 11]
         if item[0] == "opt" and item[1] == "OptArgRenamer":
-            args = [(1,), (1.0,), (True,)] if tier == "thorough" else [(1,), (1.0,)]
+            args = [((1,), ()), ((1.0,), ()), ((True,), ())] if tier == "thorough" \
+                else [((1,), ()), ((1.0,), ())]
         elif takes_args:
             args = ARGS_Q if tier == "quick" else ARGS
         else:
-            args = [()]
+            args = [((), ())]
         menu = [(i, j) for i in pool for j in range(len(args))]
         budget = BUDGET[tier] if item[0] == "pair" else BUDGET[tier] // 10
         depth = depth_for(len(menu), budget)
@@ -274,15 +281,15 @@ class C05(Check):
             m._vf_log = []
             res = None
             for (i, j) in hist:
-                res = m(pool_obj(i), *args[j])
+                res = m(pool_obj(i), *args[j][0], **dict(args[j][1]))
             i, j = hist[-1]
-            want = make_p()(pool_obj(i), *args[j])
+            want = make_p()(pool_obj(i), *args[j][0], **dict(args[j][1]))
             r.evals += 1
             got_n, want_n = norm_result(res), norm_result(want)
             if got_n != want_n:
                 kind = "result"
                 for (_i0, j0) in hist[:-1]:
-                    if j0 != j and args[j0] == args[j]:
+                    if j0 != j and args[j0] == args[j] and args[j0][0] != ():
                         # an earlier call used arguments that are == but of another type
                         kind = "result:equal-args-shared"
                 return ((kind, f"after {fmt(hist[:-1])} the call {fmt(hist[-1:])} returned "
@@ -297,8 +304,7 @@ class C05(Check):
             return None, got_n
 
         def fmt(h):
-            return "[" + ", ".join(f"{show(POOL[i])}{args[j] if args[j] else ''}"
-                                   for i, j in h) + "]"
+            return "[" + ", ".join(f"{show(POOL[i])}{fmt_args(args[j])}" for i, j in h) + "]"
 
         ex = bfs(menu, step, depth)
         r.count("states", ex.states)
@@ -310,7 +316,7 @@ class C05(Check):
         for hist, kind, detail in ex.violations:
             canon_h = drop_repeats(hist)
             sig = f"{kind}|{label}|" + ";".join(
-                f"{show(POOL[i])}@{args[j]!r}" for i, j in canon_h)
+                f"{show(POOL[i])}@{fmt_args(args[j]) or '()'}" for i, j in canon_h)
             if kind == "result:equal-args-shared":
                 sig = f"{kind}|{label}"       # one root cause per mapper pair
             if kind == "recomputed" and item[0] == "opt" and opts.get("inline_rec") \
@@ -320,6 +326,13 @@ class C05(Check):
                 sig = f"{kind}|{item[1]}"
             r.fail(kind, sig, detail, witness=("replay", tier, item))
         return r
+
+
+def fmt_args(a):
+    pos, kw = a
+    if not pos and not kw:
+        return ""
+    return "(" + ", ".join([*map(repr, pos), *[f"{k}={v!r}" for k, v in kw]]) + ")"
 
 
 def show_res(n):
